@@ -56,7 +56,7 @@ def r1_r2(prog, rep):
     from ..report import Premise
     from . import c20
     c20.area_rules(prog, Premise(rep, "R1", "C20"), "R5")
-    ok = any(isinstance(s, ast.Assign) and T(mod, s) == K("self.wall=[Point2D(r,z)forr,zinwall]") for s in walk_own(init.node))
+    ok = any(isinstance(s, ast.Assign) and T(mod, s) == K("self.wall = [Point2D(r, z) for r, z in wall]") for s in walk_own(init.node))
     rep.ob("R1", "self.wall holds the (normalised) wall points in order", ok, init.site(), "", key="wall/store")
     # order: normalisation precedes the store
     body = [T(mod, s) for s in init.node.body]
@@ -66,7 +66,7 @@ def r1_r2(prog, rep):
     em = prog.module(EQ)
     ei = em.funcs.get("Equilibrium.__init__")
     src = T(em, ei.node)
-    ok = K("closed_wall=self.wall+[self.wall[0]]") in src and K("self.closed_wallarray=numpy.array([(p.R,p.Z)forpinclosed_wall])") in src
+    ok = K("closed_wall=self.wall+[self.wall[0]]") in src and K("self.closed_wallarray = numpy.array([(p.R, p.Z) for p in closed_wall])") in src
     rep.ob("R2", "the closed wall array is the wall followed by its first point, columns (R, Z)", ok, ei.site(), "", key="wall/closed")
     w = prog.func(MESH, "BoutMesh.writeGridfile")
     src = T(w.module, w.node)
